@@ -370,7 +370,79 @@ class MiscMonitors:
             for j in range(i + 1, len(firsts)):
                 self.guard("C17", self.c17_pair, firsts[i], firsts[j], D, "round")
                 n += 1
+        # three editors: the third step is rebased over a step that was itself rebased, i.e. the pair
+        # (rebased a, rebased c) on the document b produced - both delivery orders of a and b
+        t = 0
+        for i in range(len(firsts)):
+            for j in range(i + 1, len(firsts)):
+                for k in range(len(firsts)):
+                    if k != i and k != j and t < 6:
+                        t += 1
+                        self.guard("C17", self.c17_triple, firsts[i], firsts[j], firsts[k], D, "round3")
         return "pairs:%d" % n
+
+    def c17_triple(self, a, b, c, D, site):
+        """a, b, c made against D, pairwise separated, all applicable.  Order 1: a, b/a, c/a/(b/a);
+        order 2: b, a/b, c/b/(a/b).  The pairs (b/a, c/a) on a(D) and (a/b, c/b) on b(D) are again
+        separated pairs of applicable steps, so C17 asks that nothing is dropped, everything applies
+        and the two results are equal.  What this adds to the pair check: the position map *of a
+        rebased step* is used for rebasing."""
+        if not self.is_core():
+            return
+        steps = (a, b, c)
+        tt = [touched(x) for x in steps]
+        if not (separated(tt[0], tt[1]) and separated(tt[0], tt[2]) and separated(tt[1], tt[2])):
+            return
+        if not all(gen.step_in_domain(x, D) for x in steps):
+            return
+        rs = [self.apply_quiet(x, D) for x in steps]
+        if any(r is None or r.failed for r in rs):
+            return
+        if any(retypes_outside(x, D, r.doc) for x, r in zip(steps, rs)):
+            self.probes["C17.triples_retyping_not_judged"] += 1
+            return
+        self.probes["C17.triples_judged"] += 1
+        kinds = "|".join(core.step_kind(x) for x in steps)
+        det = {"shape": kinds, "doc": D.to_json(), "a": self.describe_step(a), "b": self.describe_step(b),
+               "c": self.describe_step(c), "site": site}
+        self.count("C17", ("t", self.step_key(a), self.step_key(b), self.step_key(c), self.dg(D)), nontrivial=True)
+        sim = self.sim
+
+        def order(x, y, rx):
+            """x first, then y rebased over x, then c rebased over x and over (y rebased over x)"""
+            y1 = y.map(x.get_map())
+            c1 = c.map(x.get_map())
+            if y1 is None or c1 is None:
+                return "dropped", None
+            r1 = y1.apply(rx.doc)
+            if r1.failed or r1.doc is None:
+                return "failed:%s" % r1.failed, None
+            c2 = c1.map(y1.get_map())
+            if c2 is None:
+                return "dropped", None
+            r2 = c2.apply(r1.doc)
+            if r2.failed or r2.doc is None:
+                return "failed:%s" % r2.failed, None
+            return None, r2.doc
+
+        sim.in_oracle += 1
+        try:
+            try:
+                e1, d1 = order(a, b, rs[0])
+                e2, d2 = order(b, a, rs[1])
+            except core.Violation:
+                raise
+            except Exception as e:  # noqa: BLE001
+                self.violation("C17", "rebase3.raised", dict(det, error=repr(e)))
+                return
+        finally:
+            sim.in_oracle -= 1
+        if e1 or e2:
+            name = "rebase3.dropped" if "dropped" in (e1, e2) else "rebase3.apply_failed"
+            self.violation("C17", name, dict(det, a_b_c=e1, b_a_c=e2))
+            return
+        if not self.doc_equal(d1, d2) or not d1.eq(d2):
+            self.violation("C17", "rebase3.orders_differ", dict(det, a_b_c=d1.to_json(), b_a_c=d2.to_json()))
 
     # ================================================================== C20
     def on_pair(self, a, b, site):
@@ -424,6 +496,33 @@ class MiscMonitors:
             if got != exp:
                 self.violation("C20", "diff_%s.wrong" % name, dict(
                     det, shape="astral" if nonbmp else "bmp", expected=exp, got=got))
+        # the same fragment against a series of short-lived, independently built comparands (a view
+        # diffing candidate documents): each is dropped before the next one is built, so the answers
+        # must not depend on anything remembered from the previous comparison
+        self.c20_tick = getattr(self, "c20_tick", 0) + 1
+        if self.c20_tick % 3 == 0 and len(ta) + len(tb) < 500:
+            schema = a.type.schema
+            jb, ja = fb.to_json(), fa.to_json()
+            plan = ((jb, exp_start, exp_end), (ja, None, None), (jb, exp_start, exp_end))
+            for (js, e_start, e_end) in plan:
+                try:
+                    tmp = pm.Fragment.from_json(schema, js)
+                    g1 = fa.find_diff_start(tmp)
+                    g2 = fa.find_diff_end(tmp)
+                    del tmp
+                except core.Violation:
+                    raise
+                except Exception as e:  # noqa: BLE001
+                    self.violation("C20", "diff_series.raised", dict(det, shape=type(e).__name__, error=repr(e)))
+                    break
+                if g2 is not None:
+                    g2 = {"a": g2["a"], "b": g2["b"]}
+                self.probes["C20.transient_comparands"] += 1
+                if g1 != e_start or g2 != e_end:
+                    self.violation("C20", "diff_series.wrong", dict(
+                        det, shape="astral" if nonbmp else "bmp", comparand=js,
+                        expected=[e_start, e_end], got=[g1, g2]))
+                    break
 
     # ================================================================== dispatch hooks
     def on_rebased(self, client, tr, rest, remote, new_unc, judged, base_version, pre_doc, conf_after,
